@@ -386,9 +386,18 @@ pub fn gen_data_header(rng: &mut Rng, d: &mut Distinct) -> DataHeader {
     }
 }
 
+/// LRTUP ("size of this block") takes small and boundary values as well as arbitrary ones: a
+/// decoder that keys behaviour on it must still report every other field as stored.
+fn gen_lrtup(rng: &mut Rng, d: &mut Distinct) -> u16 {
+    match rng.below(4) {
+        0 => *rng.pick(&[0u16, 1, 12, 28, 44, 51, 52, 53, 0xFFFF]),
+        _ => d.u16(rng),
+    }
+}
+
 pub fn gen_vol(rng: &mut Rng, d: &mut Distinct) -> Vol {
     Vol {
-        lrtup: d.u16(rng),
+        lrtup: gen_lrtup(rng, d),
         major: d.u8(rng),
         minor: d.u8(rng),
         lat: d.f32(rng),
@@ -409,7 +418,7 @@ pub fn gen_vol(rng: &mut Rng, d: &mut Distinct) -> Vol {
 
 pub fn gen_elv(rng: &mut Rng, d: &mut Distinct) -> Elv {
     Elv {
-        lrtup: d.u16(rng),
+        lrtup: gen_lrtup(rng, d),
         atmos: d.u16(rng) as i16,
         calib: d.f32(rng),
     }
@@ -417,7 +426,7 @@ pub fn gen_elv(rng: &mut Rng, d: &mut Distinct) -> Elv {
 
 pub fn gen_rad(rng: &mut Rng, d: &mut Distinct) -> Rad {
     Rad {
-        lrtup: d.u16(rng),
+        lrtup: gen_lrtup(rng, d),
         unamb_range: d.u16(rng),
         noise_h: d.f32(rng),
         noise_v: d.f32(rng),
